@@ -32,6 +32,7 @@ type cX struct {
 	order     []string
 	goCB      map[string]bool
 	checkView bool // luaCheckView returns ctx.nestedView (fact from the Go side)
+	trivial   map[string]bool // Go callbacks whose process is a single ret
 	out       *Output
 }
 
@@ -532,9 +533,17 @@ func (c *cCtx) calls(t []ctok, next int) int {
 		at := t[k.open-1 : minInt(k.close+1, len(t))]
 		switch {
 		case cNoReturn[k.name]:
-			next = c.node("ret", "error", "", 0, 0, 0, at)
+			// a Lua error unwinds to the calling Lua frame.  For a function called directly from Lua this
+			// is the same as returning; for a C shim called from another process it is a real unwind.
+			if c.p.Kind == "capi" {
+				next = c.node("ret", "", "", 0, 0, 0, at)
+			} else {
+				next = c.node("throw", "", "", 0, 0, 0, at)
+			}
 		case k.name == "luaCheckView" && c.x.checkView:
 			// interpreted in cond(); as a plain call it has no effect
+		case c.x.goCB[k.name] && c.x.trivial[k.name]:
+			// the callback has no model-relevant content
 		case c.x.goCB[k.name]:
 			next = c.node("cb", k.name, "", 0, next, 0, at)
 		case k.name == "sqlite3_step":
@@ -542,6 +551,8 @@ func (c *cCtx) calls(t []ctok, next int) int {
 			next = c.node("sqlstep", arg, "", 0, next, 0, at)
 		case k.name == "sqlite3_exec":
 			next = c.node("sqlstep", "exec", "", 0, next, 0, at)
+		case cAssumedTotal[k.name]:
+			// see classify.go
 		default:
 			if f, ok := c.x.funcs[k.name]; ok {
 				next = c.inline(f, at, next)
